@@ -287,9 +287,17 @@ def judge_result_object(run, case, res, what):
                 run.violation("session:stat-%s" % k, "%s: %s=%r but the values give %r" % (what, k, res.stats[k], want[k]), case)
                 return False
     ok = True
+    order = list(res.trajectories)
+    if set(order) == {"reference", "estimate"}:
+        order = ["reference", "estimate"]  # (an archive lists its members in its own order)
+    if "timestamps" in A and len(res.trajectories) == 2:
+        est_tr = res.trajectories[order[1]]
+        ok &= run.check(hasattr(est_tr, "timestamps"), "a result with a timestamps array stores its estimate with stamps", case,
+                        "%s: the result has a timestamps array but the stored estimate has no timestamps" % what,
+                        key="session:stored-estimate-without-stamps")
     for name, tr in res.trajectories.items():
         v = contracts.views_consistent(run, case, tr, pfx="stored trajectory views", key="session:stored-trajectory-inconsistent")
-        if "t" in v and name != list(res.trajectories)[0]:
+        if "t" in v and name != order[0]:
             off = len(v["t"]) - n
             ok &= run.check(off in (0, 1) and "timestamps" in A and core.bits_equal(np.asarray(A["timestamps"], dtype=float), v["t"][off:]),
                             "returned timestamps are those of the stored estimate", case,
@@ -301,7 +309,7 @@ def judge_result_object(run, case, res, what):
                                 "seconds_from_start = stamp of the value's pose - stamp of the first pose", case,
                                 "%s: seconds_from_start is not measured from the first pose of the stored estimate" % what,
                                 key="session:seconds")
-    names = list(res.trajectories)
+    names = order
     if len(names) == 2 and "distances" in A and "distances_from_start" in A:
         vr, ve = gen.read_views(res.trajectories[names[0]]), gen.read_views(res.trajectories[names[1]])
         off = len(ve["p"]) - n
@@ -350,7 +358,8 @@ def k_session(run, case):
         ref["t"][0], ref["t"][k] = ref["t"][k], ref["t"][0]
     est = gen.perturbed_estimate(rng, ref, hostile=False)
     stamped = bool(rng.random() < .7)
-    t_ref = gen.make_evo(ref, "se3" if rng.random() < .6 else "xyzq", stamped, flavour=gen.rand_flavour(rng))
+    mixed = stamped and bool(rng.random() < .15)  # a reference without stamps (pose file) next to a stamped estimate
+    t_ref = gen.make_evo(ref, "se3" if rng.random() < .6 else "xyzq", stamped and not mixed, flavour=gen.rand_flavour(rng))
     t_est = gen.make_evo(est, "se3" if rng.random() < .6 else "xyzq", stamped, flavour=gen.rand_flavour(rng))
     gen.age(rng, t_ref, p=.7), gen.age(rng, t_est, p=.7)
     if rng.random() < .5:
@@ -384,7 +393,7 @@ def k_session(run, case):
                     for nm, src in zip(names, (t_ref, t_est)):
                         got, full = gen.read_views(out[1].trajectories[nm]), gen.read_views(src)
                         okk = okk and len(got["p"]) == len(ids) and core.bits_equal(got["p"], full["p"][ids]) and \
-                            (not stamped or core.bits_equal(got["t"], full["t"][ids]))
+                            (not stamped or "t" not in full or ("t" in got and core.bits_equal(got["t"], full["t"][ids])))
                     run.check(okk, "RPE result stores the processed trajectories restricted to first pose + pair ends", case,
                               "evaluation %d (%s, %s%s): the stored trajectories are not the processed ones at poses %s.." %
                               (j, history[-1], du, " all_pairs" if kw["all_pairs"] else "", ids[:8]),
@@ -402,6 +411,18 @@ def k_session(run, case):
             continue
         res = out[1]
         judge_result_object(run, case, res, "evaluation %d (%s)" % (j, history[-1]))
+        if rng.random() < .4:
+            # the result archived and read back (with its trajectories): still consistent in itself
+            import io as _io
+            from evo.tools import file_interface as _fi
+            buf = _io.BytesIO()
+            arch = contracts.outcome_of(_fi.save_res_file, buf, res)
+            if arch[0] == "ok":
+                buf.seek(0)
+                back = contracts.outcome_of(_fi.load_res_file, buf, True)
+                if run.check(back[0] == "ok", "an archived result can be read back", case, "load_res_file raised %r" % (back[1], ),
+                             key="session:archive-unreadable"):
+                    judge_result_object(run, case, back[1], "evaluation %d (%s) after archiving" % (j, history[-1]))
         results.append((j, res, contracts.field_snapshot(res),
                         {k: gen.read_views(tr) for k, tr in res.trajectories.items()}))
     run.seen(case, core.digest(ref["p"], est["p"], history), nontrivial=len(results) > 1,
